@@ -582,7 +582,7 @@ fn apply_event_eager(b: &mut umya::Spreadsheet, ev: &Ev) {
 
 fn op_sheet(op: &Op) -> Option<usize> {
     match op {
-        Op::SetText { sheet, .. } | Op::SetRich { sheet, .. } | Op::SetNum { sheet, .. } | Op::SetBool { sheet, .. } | Op::SetFormula { sheet, .. } | Op::SetBlank { sheet, .. } | Op::RemoveCell { sheet, .. } | Op::Bold { sheet, .. } | Op::NumFmt { sheet, .. } | Op::FillColor { sheet, .. } | Op::Hyperlink { sheet, .. } | Op::Comment { sheet, .. } | Op::Merge { sheet, .. } | Op::DefinedName { sheet, .. } | Op::LocalName { sheet, .. } | Op::SheetRemoveRow { sheet, .. } | Op::SheetRemoveCol { sheet, .. } | Op::SheetInsertRow { sheet, .. } | Op::ColWidth { sheet, .. } | Op::RowHeight { sheet, .. } | Op::SetState { sheet, .. } | Op::Table { sheet, .. } => Some(*sheet),
+        Op::SetText { sheet, .. } | Op::SetRich { sheet, .. } | Op::SetNum { sheet, .. } | Op::SetBool { sheet, .. } | Op::SetFormula { sheet, .. } | Op::SetBlank { sheet, .. } | Op::RemoveCell { sheet, .. } | Op::Bold { sheet, .. } | Op::NumFmt { sheet, .. } | Op::FillColor { sheet, .. } | Op::Hyperlink { sheet, .. } | Op::Comment { sheet, .. } | Op::Merge { sheet, .. } | Op::DefinedName { sheet, .. } | Op::LocalName { sheet, .. } | Op::SheetRemoveRow { sheet, .. } | Op::SheetRemoveCol { sheet, .. } | Op::SheetInsertRow { sheet, .. } | Op::ColWidth { sheet, .. } | Op::RowHeight { sheet, .. } | Op::SetState { sheet, .. } | Op::Table { sheet, .. } | Op::CommentRich { sheet, .. } | Op::EditComment { sheet, .. } => Some(*sheet),
         _ => None,
     }
 }
@@ -620,7 +620,7 @@ pub fn gen_source(sw: &mut Rng, wl: &mut Rng, tier: &str) -> Value {
         }
     }
     let sheets = 2 + sw.usize(4);
-    let cfg = world::GenCfg { sheets, ncells: 4 + sw.usize(8), alpha: sw.usize(4), w: [8, 2, 3, 1, 2, 1, 3, 3, 2, 1, 1, 2] };
+    let cfg = world::GenCfg { sheets, ncells: 4 + sw.usize(8), alpha: sw.usize(4), w: [8, 2, 3, 1, 2, 1, 3, 3, 2, 1, 1, 2, 2] };
     let n = 4 + wl.usize(30);
     let mut ops = Vec::new();
     for i in 0..n {
@@ -664,7 +664,7 @@ pub fn cases(run_seed: u64, tier: &str, _scratch: &str) -> Vec<Value> {
             2 + sw.below(3) as u32, // save
         ];
         let len = 1 + sc.usize(15);
-        let cfg = world::GenCfg { sheets: nsheets, ncells: 6, alpha: sw.usize(4), w: [8, 1, 2, 1, 1, 2, 2, 2, 1, 1, 0, 1] };
+        let cfg = world::GenCfg { sheets: nsheets, ncells: 6, alpha: sw.usize(4), w: [8, 1, 2, 1, 1, 2, 2, 2, 1, 1, 0, 1, 0] };
         let mut evs = Vec::new();
         for k in 0..len {
             let i = sc.usize(nsheets + 1);
